@@ -23,6 +23,29 @@ Where the statement is silent or ambiguous the evaluator answers "don't care" an
     numeric / boolean / temporal Property" nor "tuple of the wrong length".
 Kinds the statement does not mention (property_values_string_check, property_terminology_check,
 section_repository_present, custom) are ignored.
+
+Issues are counted PER OBJECT IDENTITY (id()/is) on both sides, never by ==: two objects of equal content at
+different places are two objects, and each of them gets exactly the issues its own place prescribes.
+
+Input dimensions (every document is validated from the Document and from Sections / Properties in place):
+  * rule matrices: dependency, ids, required attributes, cardinalities, sibling names, values/dtype, random mixtures;
+  * one table of violations (SEC_VIOLATIONS / PROP_VIOLATIONS, one entry per documented rule and direction)
+    applicable to any Section / Property of any document;
+  * links and includes (run_links): template + linking Section (+ second linking Section, + linking Section inside
+    the target, + Sections below a Section, + file: includes loaded through the terminology loader, + repository
+    set without merge); the violation sits on the linking Section, its own Properties and sub-Sections, children
+    matched with target children, copied children, the target, or an unrelated Section; it is put there before
+    resolving, after resolving or after clean(); validated before resolving (link text only), resolved, after
+    clean() and after resolving again;
+  * the same content at several places (gen_replicated): every rule matrix x {clone elsewhere, keep_id clone, clone
+    three levels down, two clones inside one Section, clone with changed definitions (same names, other content),
+    same-name sibling of another type (same path), Properties cloned into another Section, equal sibling
+    Properties, copies made by the library through a link};
+  * deep chains (9 levels) and wide rows (12 siblings) with the violation at the first / middle / last place and
+    at all places at once;
+  * random mixtures that are replicated / linked / cleaned afterwards.
+A prescribed issue that is missing in a run but reported when the object itself is validated is classified by the
+situation of the object (private link fields, equal-content object that did get the issue), see lost_situation().
 """
 from __future__ import annotations
 
@@ -1668,8 +1691,13 @@ def run_rules(tier, seed):
              'depth), keep_id-clone / shared-id documents, required-attribute matrix (type x name x place), every (min,max) '
              'cardinality up to 5 x child count 0..5 x {sections, properties, values}, duplicate sibling names (k=2,3; '
              'same/different type; item assignment / private field), values forced against dtype, then seeded random '
-             'mixtures of these mutations; two cases are distinct when (generator, parameters, kind of validated root, '
-             'attached?, set of expected issue kinds) differ',
+             'mixtures of these mutations; link/include scenarios (9 ways of linking x role of the violating object '
+             'relative to the linking Section x every violation of the rule table x moment of the violation), validated '
+             'before resolving, resolved, after clean() and resolved again; every rule matrix replicated in 9 ways '
+             '(equal content at several places, same names with other content, copies made through links); deep (9 '
+             'levels) and wide (12 siblings) documents; random mixtures replicated / linked afterwards; two cases are '
+             'distinct when (generator, parameters incl. state, kind of validated root, attached?, set of expected '
+             'issue kinds) differ',
         exhaustive=False)
 
     n = 0
